@@ -401,7 +401,10 @@ pub fn gen_seq(seed: u64, o: &SeqOpts) -> Plan {
             backend: backend.clone(),
             phases: vec![Phase { threads: vec![ops] }],
             faults: vec![],
-            buggify: vec![],
+            // legal-but-unusual behaviour, per incarnation, from its own PRNG stream (the plan itself is unchanged):
+            // io_uring cannot be set up (seccomp, sysctl, descriptor limit), the documented fallback to positional
+            // writes must take over
+            buggify: if Rng::new(mix(mix(seed, 0xB066), inc_i as u64)).chance(0.12) { vec!["uring_init_fail".to_string()] } else { vec![] },
             trace_io: false,
         });
         clock_delta = if o.clock_jumps {
